@@ -215,6 +215,57 @@ func feeSpaces(thorough bool, types []string) []chanmc.Space {
 	return out
 }
 
+// splitSpaces is the sign-before-revoke family (chanmc.Params.SplitRevoke): the
+// answer to a commitment_signed is a step of its own, so a party may send its
+// own commitment_signed (or add / resolve / take deliveries) between
+// ReceiveNewCommitment and RevokeCurrentCommitment. lnd's link never does, but
+// the order is legal inside the one-unacked-commitment window and the property
+// quantifies over all interleavings of commitment_signed and revoke_and_ack
+// sends. At that instant the receiver's in-memory local chain is one ahead of
+// what it has acked, so anything the signer derives from the wrong chain (fee
+// rate, acked log index) only differs there. Shapes: one fee update by the
+// opener + one HTLC offered by the non-opener (so that the non-opener owes a
+// signature while it owes the revocation) / by the opener, and 1+1 HTLCs
+// without a fee update; full interleaving.
+func splitSpaces(thorough bool) []chanmc.Space {
+	var out []chanmc.Space
+	mk := func(typ string, openerB bool, fees []int64, by ...int) {
+		op := 0
+		if openerB {
+			op = 1
+		}
+		th := chanmc.Thresholds(typ, baseFee, 200, 1300)
+		p := chanmc.Params{Type: typ, OpenerB: openerB, FeePerKw: baseFee, Fees: fees, SplitRevoke: true}
+		for _, b := range by {
+			who := op
+			fate := "fail"
+			if b == 1 {
+				who, fate = 1-op, "settle"
+			}
+			p.Script = append(p.Script, chanmc.Intent{By: who, Amt: sat(th[2*who]+1, 0), Fate: fate})
+		}
+		out = append(out, chanmc.Space{Dev: -1, P: p})
+	}
+	if !thorough {
+		// four cells, fee-bearing second-level types first; the HTLC is offered by the non-opener
+		mk("tweakless", false, []int64{7000}, 1)
+		mk("zerofee", true, []int64{5000}, 1)
+		mk("taprootfinal", false, []int64{7000}, 1)
+		mk("lease", true, []int64{5000}, 1)
+		return out
+	}
+	for ti, typ := range chanmc.AllTypes {
+		for _, openerB := range []bool{false, true} {
+			mk(typ, openerB, []int64{7000}, 1)
+			mk(typ, openerB, []int64{5000}, 0)
+			if (ti%2 == 1) == openerB {
+				mk(typ, openerB, nil, 0, 1)
+			}
+		}
+	}
+	return out
+}
+
 // breadthSpaces is the type x opener x offerer breadth family: ONE untrimmed
 // HTLC, full interleaving (every asynchronous order of add / sign / revoke /
 // resolve of both sides, ~90 states), on every one of the seven channel types x
@@ -464,6 +515,7 @@ func TestC01(t *testing.T) {
 		ft = chanmc.AllTypes
 	}
 	fee := feeSpaces(run.Thorough(), ft)
+	fee = append(fee, splitSpaces(run.Thorough())...)
 	// the axis-audit families rotate over ALL seven types in both tiers (their
 	// spaces are small), cheapest first, in lanes of their own: a deadline on a
 	// loaded machine then cuts the depth of the main list, not the type breadth
